@@ -68,6 +68,17 @@ class World(object):
             if r and r[0] == 1:
                 self.fh[-1] = h
             return r
+        if t == "prune":
+            if op[1] >= len(self.framers):
+                return [0]
+            fr = self.framers[op[1]]
+            try:
+                fr.prune()
+            except Exception as ex:
+                return [9, sum(map(ord, type(ex).__name__)) % 100]
+            # the owner may free its own name: it is no longer expected to hold it
+            self.registered = [(d, nm, o) for d, nm, o in self.registered if o is not fr]
+            return [0]
         if t == "clone":
             f, name, orc = op[1], op[2], op[3]
             if f >= len(self.framers) or self.fh[f] is None:
@@ -195,7 +206,18 @@ def prop_violation(ops):
                 and "Names" not in w.cls["CFramer"].__dict__:
             own = w.houses[w.fh[op[1]]].names["tasker"]     # the registry of the framer's OWN house
             expect = (own, bool(op[2]) and op[2] in own)
+        before = None
+        if op[0] == "prune" and op[1] < len(w.framers):
+            before = [(d, dict(d)) for d in w.heap]
         r = w.apply(op)
+        if before is not None:
+            fr = w.framers[op[1]]
+            for d, old in before:
+                for nm, obj in old.items():
+                    if d.get(nm) is not obj and obj is not fr:
+                        return {"step": i, "op": op, "key": "c47-prune-foreign-entry",
+                                "why": "prune() of framer %r removed the registry entry %r of ANOTHER live instance "
+                                       "(the namespace that was current belongs to another house)" % (fr.name, nm)}
         if expect is not None:
             own, taken = expect
             rejected = r[0] in (2, 4)
@@ -250,6 +272,8 @@ def c_op(op):
         return "CreateFramerIn %d%%nat %s %s %s" % (op[1], c_nk(op[2]), c_str(op[3]), c_l(op[4]))
     if t == "clone":
         return "Clone %d%%nat %s %s" % (op[1], c_str(op[2]), c_l(op[3]))
+    if t == "prune":
+        return "Prune %d%%nat" % op[1]
     if t == "assign":
         return "Assign %d%%nat" % op[1]
     if t == "assignframe":
@@ -284,13 +308,27 @@ CLONE_PREFIX = [("house", "a", "", []), ("house", "b", "", []), ("assign", 0), (
 CLONE_ALPHABET = [("clone", 0, "w", []), ("clone", 1, "w", []), ("clone", 0, "g", []), ("clone", 1, "g", []),
                   ("clone", 0, "f", []), ("clone", 2, "w", []), ("clone", 0, "", [0, 1]), ("clone", 1, "", [1]),
                   ("clone", 3, "x", []), ("assign", 0), ("assign", 1), ("create", "CTasker", "w", "", []),
-                  ("createin", 0, "w", "", []), ("createin", 1, None, "", [])]
+                  ("createin", 0, "w", "", []), ("createin", 1, None, "", []),
+                  ("prune", 3), ("prune", 4), ("prune", 0), ("prune", 2)]
+# raze/prune in one house while the other house's namespace is current and holds a same-named clone, then an
+# explicit duplicate there: all histories of length <= 3 (after the two-house prefix) over PRUNE_ALPHABET
+PRUNE_ALPHABET = [("clone", 0, "w", []), ("clone", 1, "w", []), ("prune", 3), ("prune", 4), ("assign", 0), ("assign", 1),
+                  ("createin", 1, "w", "", []), ("createin", 0, "w", "", []), ("clone", 1, "", [])]
+PRUNE_DIRECTED = [
+    [("clone", 0, "w", []), ("clone", 1, "w", []), ("prune", 3), ("createin", 1, "w", "", []), ("clone", 1, "w", [])],
+    [("clone", 1, "w", []), ("clone", 0, "w", []), ("prune", 3), ("assign", 0), ("createin", 0, "w", "", [])],
+    [("clone", 0, "w", []), ("clone", 1, "w", []), ("assign", 0), ("prune", 3), ("prune", 3), ("clone", 0, "w", []),
+     ("assign", 1), ("prune", 5), ("prune", 4), ("createin", 1, "w", "", [])],
+    [("clone", 0, "", []), ("clone", 1, "", [0]), ("prune", 3), ("prune", 4), ("assign", 0), ("prune", 3)],
+]
 
 
 def gen_op(rng, nh, nf):
     c = rng.random()
     if nh and c < 0.12:
         return ("createin", rng.randrange(nh + 1), rng.choice([None, "f", "g", "w", "w1", "Framer2"]), "", [])
+    if nf and c < 0.17:
+        return ("prune", rng.randrange(nf + 1))
     if nf and c < 0.3:
         return ("clone", rng.randrange(nf + 1), rng.choice(["w", "w1", "f", "g", "x", "", "Framer3", "w_2"]),
                 [rng.randint(0, 1) for _ in range(rng.randint(0, 3))])
@@ -469,14 +507,21 @@ def run(ctx):
         seqs += [list(p) for p in itertools.product(ALPHABET, repeat=3)]
     else:
         tri = [list(p) for p in itertools.product(ALPHABET, repeat=3)]
-        seqs += rng.sample(tri, 500)
+        seqs += rng.sample(tri, 300)
         ctx.exhaustive = False
     seqs += directed()
     seqs += [CLONE_PREFIX + [a] for a in CLONE_ALPHABET]
     seqs += [CLONE_PREFIX + [a, b] for a in CLONE_ALPHABET for b in CLONE_ALPHABET]
     if ctx.thorough:
         seqs += [CLONE_PREFIX + [a, b, c] for a in CLONE_ALPHABET for b in CLONE_ALPHABET for c in CLONE_ALPHABET]
-    for _ in range(ctx.n(400, 5000)):
+    seqs += [CLONE_PREFIX + d for d in PRUNE_DIRECTED]
+    ptri = [CLONE_PREFIX + [a, b, c] for a in PRUNE_ALPHABET for b in PRUNE_ALPHABET for c in PRUNE_ALPHABET]
+    seqs += ptri if ctx.thorough else rng.sample(ptri, 220)
+    seqs += [CLONE_PREFIX + [("clone", 0, "w", []), ("clone", 1, "w", []), b, c] for b in PRUNE_ALPHABET for c in PRUNE_ALPHABET]
+    if ctx.thorough:
+        seqs += [CLONE_PREFIX + [a, b, c, d] for a in PRUNE_ALPHABET for b in PRUNE_ALPHABET for c in PRUNE_ALPHABET
+                 for d in PRUNE_ALPHABET]
+    for _ in range(ctx.n(300, 5000)):
         ops, nh, nf = [], 0, 0
         for _ in range(rng.randint(4, 30)):
             o = gen_op(rng, nh, nf)
@@ -494,7 +539,7 @@ def run(ctx):
         for o in ops:
             if o[0] in ("create", "house", "createin", "clone"):
                 nontriv = nontriv or (o[-1] != [])
-        ctx.case({"ops": ops}, nontrivial=nontriv or any(o[0] in ("assign", "clear", "clone") for o in ops),
+        ctx.case({"ops": ops}, nontrivial=nontriv or any(o[0] in ("assign", "clear", "clone", "prune") for o in ops),
                  kind="len<=3" if len(ops) <= 3 else "random")
     STATE["metas"] = metas
     # sampled run-time scenario (Rearer -> Framer.clone in a three-house plan); not tied to the Coq model
